@@ -41,6 +41,22 @@ pub(crate) fn value_of_correct_type(
         return;
     };
 
+    if let ast::Value::Object(obj) = &**arg_value {
+        // Input Object Field Uniqueness
+        for (index, (name, _)) in obj.iter().enumerate() {
+            if let Some((original, _)) = obj[..index].iter().find(|(other, _)| other == name) {
+                diagnostics.push(
+                    name.location(),
+                    DiagnosticData::UniqueInputValue {
+                        name: name.clone(),
+                        original_definition: original.location(),
+                        redefined_definition: name.location(),
+                    },
+                );
+            }
+        }
+    }
+
     match &**arg_value {
         // When expected as an input type, only integer input values are
         // accepted. All other input values, including strings with numeric
